@@ -77,9 +77,9 @@ PROPS = {
     },
     "C16": {
         "level": "proof",
-        "units": ["qibla"],
+        "units": ["qibla", "fmt1", "qtext"],
         "rule": "falsifier: independent 3-D vector bearing (west positive) within 1e-6 deg, range, rotation label, one-decimal text, elevation independence; grid incl. date line, Kaaba meridian/antimeridian + random; non-trivial = distinct (lat, lon) to 0.01 deg",
-        "trusted": ["Complex.arg as the model of atan2", "text rendering {:.1} is checked by the falsifier only"],
+        "trusted": ["Complex.arg as the model of atan2", "core::fmt's `{:.1}` (exact value, correctly rounded, ties to even) is modelled at the bit level (Model/Fmt.lean) and compared with Rust on ties, carries, subnormals, huge values and random patterns (unit fmt1); the real Qibla::to_string() is compared with the model text of its own degrees() bits (unit qtext)"],
         "assumptions": COMMON_ASSUME,
     },
     "C20": {
